@@ -598,6 +598,11 @@ def r166(facts, res):
                 r, projs, via = b.op_root(t['args'][1], through=THR, stop_named=False)
                 if 1 <= r <= b.arg_count and 'StIdx' in b.lty(r):
                     continue        # the start state
+                # an element drawn by a loop from values(edges[X]) with X taken from the work list (the extend() written out)
+                r2, projs2, via2 = b.op_root(t['args'][1], through=THR + ('values', 'index', 'iter', 'into_iter'), stop_named=False)
+                ix = [(b2, t2) for b2, t2 in b.calls_named('index') if b.dominates(b2, bb) and len(t2['args']) == 2]
+                if 'values' in via2 and 'next' in via2 and any(from_worklist(t2['args'][1]) or from_worklist_via_from(b, t2['args'][1], work, THR) for b2, t2 in ix):
+                    continue
                 bad.append('line %s: something other than the start state is inserted into the work list' % t.get('line'))
             else:
                 # extend(values(edges[X]) [filtered]) with X taken from the work list
